@@ -488,6 +488,26 @@ fn wires_permutation_partial_products_and_zs<
         all_partial_products_and_zs.push(partial_products_and_z_gx);
     }
 
+    #[cfg(feature = "verif_hooks")]
+    if let Some((jump_row, jump_k)) = crate::plonk::verif_knobs::get().zpp_jump {
+        let n = all_partial_products_and_zs.len();
+        if z_x != F::ZERO && jump_row < n && jump_k <= num_prods {
+            let c = z_x.inverse();
+            for i in jump_row..n {
+                for j in 0..=num_prods {
+                    if i == jump_row && j < jump_k {
+                        continue;
+                    }
+                    if j < num_prods {
+                        all_partial_products_and_zs[i][j] *= c;
+                    } else if i + 1 < n {
+                        all_partial_products_and_zs[i + 1][num_prods] *= c;
+                    }
+                }
+            }
+        }
+    }
+
     transpose(&all_partial_products_and_zs)
         .into_par_iter()
         .map(PolynomialValues::new)
